@@ -1,7 +1,7 @@
 (* C15/Model.v — a small file-system model and the two migrations of tally as effect lists.
 
    Hand model (tied to /repo by harness/c15.py: recorded effect traces must equal these lists, and
-   every crash / fault state materialised on disk must equal [crash ops k n f0]; see the harness).
+   every crash / fault state materialised on disk must equal [crash ops k j n f0]; see the harness).
 
    cli.py:_migrate_csv_to_rules      -> csv_ops          (commands: `tally up --migrate`, `tally init`)
    cli.py:_check_merchant_migration  -> up_ops / up_inrun_after_fault
@@ -147,24 +147,63 @@ Fixpoint run (ops : list eff) (f : fs) : fs * bool :=
   | e :: r => match apply e f with Some f1 => run r f1 | None => (f, false) end
   end.
 
-(* the in-flight step has reached the disk only partly: a write of the first n bytes *)
-Definition partial (e : eff) (n : nat) (f : fs) : fs :=
-  match e with
-  | Write p d => match apply (Write p (ctake n d)) f with Some f1 => f1 | None => f end
-  | _ => f
-  end.
+(* ---- interruptions: Python buffers what is written ------------------------------------------
+   f.write(d) only fills the file object's buffer; the pieces reach the disk when the file is closed
+   (flush), in order.  A crash at step k, or step k raising OSError, leaves on disk the effects of
+   the first k steps with the still-open file holding only what had been flushed: the first j
+   buffered pieces entirely and the first n bytes of piece j (j = n = 0: nothing, the usual case
+   for a small file; other values: an early or torn flush).  So the point where a written text
+   becomes durable is the Close step, not the Write step: whatever runs between a write and its
+   close (e.g. a rename of another file) is on disk BEFORE the written text. *)
+Definition wr (p : path) (d : string) (f : fs) : fs :=
+  match apply (Write p d) f with Some f1 => f1 | None => f end.
 
-(* the disk after the first k steps completed and step k (0-based) was cut after n bytes.
-   k >= length ops is the completed run.  The same disk state arises from a crash at that point and
-   from step k raising OSError there (the `with` block closes the file, nothing is rolled back). *)
-Fixpoint crash (ops : list eff) (k n : nat) (f : fs) : fs :=
-  match ops with
+Fixpoint flush_all (p : path) (ds : list string) (f : fs) : fs :=
+  match ds with [] => f | d :: r => flush_all p r (wr p d f) end.
+
+Fixpoint flush_cut (p : path) (ds : list string) (j n : nat) (f : fs) : fs :=
+  match ds with
   | [] => f
-  | e :: r => match k with
-              | 0 => partial e n f
-              | S k' => match apply e f with Some f1 => crash r k' n f1 | None => f end
+  | d :: r => match j with
+              | 0 => wr p (ctake n d) f
+              | S j' => flush_cut p r j' n (wr p d f)
               end
   end.
+
+Definition pending := option (path * list string).     (* the open file and its buffered pieces *)
+
+Definition cut_pending (pd : pending) (j n : nat) (f : fs) : fs :=
+  match pd with Some (p, ds) => flush_cut p ds j n f | None => f end.
+
+Definition buffer (e : eff) (pd : pending) : pending :=
+  match e, pd with Write _ d, Some (q, ds) => Some (q, ds ++ [d]) | _, _ => pd end.
+
+Fixpoint bcrash (ops : list eff) (pd : pending) (k j n : nat) (f : fs) : fs :=
+  match ops with
+  | [] => f
+  | e :: r =>
+    match k with
+    | 0 => cut_pending (buffer e pd) j n f
+    | S k' =>
+      match e with
+      | Write _ _ => match pd with Some _ => bcrash r (buffer e pd) k' j n f | None => f end
+      | Close _ => match pd with
+                   | Some (q, ds) => bcrash r None k' j n (flush_all q ds f)
+                   | None => bcrash r None k' j n f
+                   end
+      | OpenTrunc p | OpenAppend p =>
+        match apply e f with Some f1 => bcrash r (Some (p, [])) k' j n f1 | None => f end
+      | Move _ _ | Mkdir _ =>
+        match apply e f with Some f1 => bcrash r pd k' j n f1 | None => f end
+      end
+    end
+  end.
+
+(* the disk after the first k steps ran and step k (0-based) was interrupted, with the open file's
+   buffer flushed up to (j, n).  k >= length ops is the completed run.  The same disk state arises
+   from a crash at that point and from step k raising OSError there (the `with` block closes the
+   file, the rest of the buffer is lost, nothing is rolled back). *)
+Definition crash (ops : list eff) (k j n : nat) (f : fs) : fs := bcrash ops None k j n f.
 
 (* ---- oracles ---------------------------------------------------------------------------- *)
 Inductive mfres :=
@@ -275,9 +314,9 @@ Definition rerun (c : cmd) (f : fs) (b : path) : fs :=
   let f1 := fst (run (mig_ops c f b) f) in
   match c with Up => f1 | Init => init_rest f1 b end.
 
-(* what a command leaves behind when step k of its migration raised after n bytes *)
-Definition after_fault (c : cmd) (f0 : fs) (b : path) (k n : nat) : fs :=
-  let f1 := crash (mig_ops c f0 b) k n f0 in
+(* what a command leaves behind when step k of its migration raised (buffer flushed up to (j, n)) *)
+Definition after_fault (c : cmd) (f0 : fs) (b : path) (k j n : nat) : fs :=
+  let f1 := crash (mig_ops c f0 b) k j n f0 in
   match c with Up => f1 | Init => init_rest f1 b end.
 
 (* ---- layout migration ------------------------------------------------------------------- *)
